@@ -90,19 +90,21 @@ type c11Env struct {
 	srv *server.GripServer
 	db  gdbi.GraphDB
 	dir string
+	js  *jobstorage.FSResults
 }
 
 func c11New(db gdbi.GraphDB) *c11Env {
 	dir := filepath.Join(harnessWorkDir(), fmt.Sprintf("jobs-%d", atomic.AddInt64(&c11Dirs, 1)))
 	os.MkdirAll(dir, 0o755)
-	e := &c11Env{srv: newServer(db), db: db, dir: dir}
-	e.srv.VerifSetJobStorage(jobstorage.NewFSJobStorage(dir))
+	e := &c11Env{srv: newServer(db), db: db, dir: dir, js: jobstorage.NewFSJobStorage(dir)}
+	e.srv.VerifSetJobStorage(e.js)
 	return e
 }
 
 func (e *c11Env) restart() {
 	e.srv = newServer(e.db)
-	e.srv.VerifSetJobStorage(jobstorage.NewFSJobStorage(e.dir))
+	e.js = jobstorage.NewFSJobStorage(e.dir)
+	e.srv.VerifSetJobStorage(e.js)
 }
 
 func (e *c11Env) close() { os.RemoveAll(e.dir) }
@@ -385,6 +387,38 @@ func c11Body(run *vf.Run, tier string) {
 			}(pi, p)
 		}
 		wg.Wait()
+		// a stored job is what its own traversal produced: resuming it, with whatever extra steps, must not
+		// change it (the marks a job knows are the ones its own statements set)
+		var keys []string
+		for k := range prefixJobs {
+			keys = append(keys, k)
+		}
+		sort.Strings(keys)
+		for _, k := range keys {
+			id := prefixJobs[k]
+			if id == "!" {
+				continue
+			}
+			st, err := env.js.Stream(context.Background(), "g", id)
+			if err != nil {
+				continue
+			}
+			go func() {
+				for range st.Pipe {
+				}
+			}()
+			var extra []string
+			for m := range st.MarkTypes {
+				if !strings.Contains(k, "as("+m+")") {
+					extra = append(extra, m)
+				}
+			}
+			sort.Strings(extra)
+			evals++
+			if len(extra) > 0 {
+				run.Report(vf.Violation{Sig: "resume|stored-job-changed|mark-types", Detail: fmt.Sprintf("on %s: after the resumes of job %s the stored job lists the marks %v, which its own statements never set (a resume with as() writes into the stored job; two concurrent resumes write the same map)", tg.name, k, extra), Replay: map[string]any{"job": k, "marks": extra}})
+			}
+		}
 		env.close()
 	}
 
